@@ -71,9 +71,9 @@ static bool inv(const XMLReader* r) {
 #define MAXOUT (N / UNIT + 1)
 // reference: UTF-8 decoding (Unicode Table 3-7) of the whole byte string, then XML 1.0 end-of-line normalisation for external entities
 struct Ref { XMLCh out[N + 1]; XMLSize_t n; bool ill; unsigned long line, col; };
-// reference: UTF-16LE decoding of the whole byte string (a trailing odd byte is an incomplete unit), then XML 1.0 end-of-line normalisation
+// reference: fixed-width decoding of the whole byte string (trailing bytes that do not make a unit are an encoding error), then XML 1.0 end-of-line normalisation
 static void reference(const XMLByte* s, XMLSize_t n, bool external, Ref& r) {
-  XMLCh dec[N + 1]; XMLSize_t dn = 0; r.ill = false;
+  XMLCh dec[N + 1]; XMLSize_t dn = 0; r.ill = (n % UNIT) != 0;      // the stream ends inside a unit: not a legal end of input in the encoding
   for (XMLSize_t i = 0; i + UNIT - 1 < N + 1; i += UNIT) if (i + UNIT - 1 < n) dec[dn++] = (XMLCh)(s[i] | (s[i + 1] << 8));
   r.n = 0; r.line = 1; r.col = 1;
   for (XMLSize_t k = 0; k < N; k++) if (k < dn) {
